@@ -40,7 +40,12 @@ pub fn exec(a: &[&str]) -> String {
         "scan" => {
             let bs = parse_bytes(a[1]);
             let st = num(a[2]);
+            // the tiered kernels are compiled out under `scalar-yaml` (the whole scanner is scalar
+            // there): every slot is then the public entry point.
+            #[cfg(not(feature = "scalar-yaml"))]
             let t = |tier: u8| h::verif_json_escape_tier(&bs, st, tier);
+            #[cfg(feature = "scalar-yaml")]
+            let t = |_tier: u8| Some(h::find_json_escape(&bs, st));
             let sse2 = t(1).unwrap();
             format!(
                 "{},{},{},{},{},{}",
